@@ -27,10 +27,10 @@ ASSUMPTIONS = ["generator preconditions from the statement: pin cites followed b
                "different group structure matches exactly the same characters",
                "expected court id = first exact-normalised citation_string in courts-db, else last prefix match"]
 FLOORS = {"quick": {"db_members_checked": 3000, "db_members_ok": 2500, "db_members:laws": 500, "db_members:journals": 500,
-                    "law_literals_checked": 1200, "law_literal_ok:'§'": 150, "law_literal_ok:'§§ '": 150, "law_literal_ok:'§§'": 150,
+                    "law_literals_checked": 1200, "law_literal_subsections": 250, "law_literal_ok:'§'": 150, "law_literal_ok:'§§ '": 150, "law_literal_ok:'§§'": 150,
                     "extractors_total": 6000, "minimal_forms_checked": 40000, "literal_forms_checked": 6000, "examples_checked": 700,
                     "form:full": 1200, "form:full_parallel": 300, "form:short": 500, "form:supra": 500,
-                    "form:id": 500, "form:journal": 500, "form:law": 400, "form:antecedent_full": 500, "form:bare_pair": 500, "form:document": 500, "document_written_citations": 2500, "courts_checked": 300, "courts_exhaustive": 1800,
+                    "form:id": 500, "form:journal": 500, "form:law": 400, "form:antecedent_full": 500, "form:bare_pair": 500, "supra_punctuation_clusters": 30, "form:document": 500, "document_written_citations": 2500, "courts_checked": 300, "courts_exhaustive": 1800,
                     "pin_cites_checked": 1000},
           "thorough": {"minimal_forms_checked": 250000, "form:full": 80000, "form:full_parallel": 20000,
                        "form:short": 30000, "form:supra": 30000, "form:id": 30000, "form:journal": 30000,
@@ -390,12 +390,22 @@ def run_law_literals(spec, rec, rng):
                         core = core0.replace("§ ", sign) if sign else core0
                         pre = rng.choice(["See ", "under ", "", "It is governed by "])
                         term = rng.choice([". Further text follows.", "; further text.", ".", " (2007).", ", and more."])
+                        meta = None
+                        if groups.get("section") and core.endswith(groups["section"]) and rng.random() < 0.5:
+                            # subsections directly after the section number are the statute's pin cite; publisher
+                            # and year follow in one parenthesis
+                            chain = rng.choice(["(a)", "(1)", "(r)(viii)", "(a)(2)(B)", "(xiii)", "(a) and (d)", "(b) et seq.",
+                                                "(iv)(a)", "(1234)", "(Z)(9)"])
+                            pub, year = rng.choice([(None, None), ("West", "2009"), (None, "1987"), ("Lexis Supp.", "2019")])
+                            paren = f" ({' '.join(x for x in (pub, year) if x)})" if year else ""
+                            term = chain + paren + rng.choice([". Further text follows.", "; further text.", "."])
+                            meta = dict(pin_cite=chain, year=year, publisher=pub)
                         text = pre + core + term
                         case = dict(text=text, origin=dict(law=key, template=template, sign=sign), core=core)
-                        law_literal(rec, text, len(pre), core, groups, case)
+                        law_literal(rec, text, len(pre), core, groups, case, meta)
 
 
-def law_literal(rec, text, st, core, groups, case):
+def law_literal(rec, text, st, core, groups, case, meta=None):
     from eyecite.models import FullLawCitation, ReferenceCitation, UnknownCitation
     cs = extract(text, rec, case)
     if cs is None:
@@ -410,6 +420,13 @@ def law_literal(rec, text, st, core, groups, case):
     rest = [c for c in cs if c not in good and not isinstance(c, ReferenceCitation)]
     if len(good) == 1 and not rest:
         rec.count("law_literal_ok:" + repr(case["origin"].get("sign")))
+        if meta:
+            rec.count("law_literal_subsections")
+            c = good[0]
+            for k, v in meta.items():
+                if getattr(c.metadata, k) != v:
+                    fail(rec, "law_literal_" + k, case, observed=getattr(c.metadata, k), expected=v)
+                    break
         return
     # a second pattern matching other characters, or the same characters with another group structure?
     for o in gen.DB.cit_extractors:
@@ -849,9 +866,12 @@ def check_supra(rng, rec):
     comma = not pin and rng.random() < 0.5
     if comma:
         s += ","
-    term = rng.choice(TERM[:9]) if pin else rng.choice([" Further text.", " and further."] if comma else [". Further text.", " and further.", "."])
+    term = rng.choice(TERM[:9]) if pin else rng.choice([" Further text.", " and further."] if comma else [". Further text.", " and further.", ".",
+                                                         # closing a parenthesis or quotation: several punctuation marks at once
+                                                         ".) Further text.", "). Further.", ".\" Further.", ".\u201d) And more.", "));"])
     par = term[2:-2] if term.startswith(" (") else None
     s += term
+    cluster = len(term) - len(term.lstrip(".,;:)\"\u201d")) if not pin and not comma else 0
     case = dict(text=s, form="supra")
     rec.count("form:supra")
     c = one(s, SupraCitation, rec, case)
@@ -859,7 +879,12 @@ def check_supra(rng, rec):
         return
     if c.span()[0] != st or (pin and c.span()[1] != en):
         return fail(rec, "supra_span", case, observed=c.span(), expected=(st, en))
-    if not pin and not (st + 5 <= c.span()[1] <= st + 6 and not s[st + 5:c.span()[1]].strip(",.;")):
+    if not pin and cluster > 1:
+        # the token takes the punctuation glued to the word
+        if not (st + 5 <= c.span()[1] <= st + 5 + cluster):
+            return fail(rec, "supra_span", case, observed=c.span(), expected=(st, st + 5))
+        rec.count("supra_punctuation_clusters")
+    elif not pin and not (st + 5 <= c.span()[1] <= st + 6 and not s[st + 5:c.span()[1]].strip(",.;")):
         return fail(rec, "supra_span", case, observed=c.span(), expected=(st, st + 5))
     if (c.metadata.pin_cite or None) != (f"at {pin}" if pin else None):
         return fail(rec, "supra_pin_cite", case, observed=c.metadata.pin_cite, expected=pin)
